@@ -311,6 +311,15 @@ pub fn threshold_family(deep: bool) -> Vec<Vec<u8>> {
         b.extend_from_slice(b"\x1b[0m tail\n");
         v.push(b);
     }
+    if deep {
+        // a string sequence whose payload ends right at a typical buffer size, then its terminator and visible text - ONE call
+        for l in [4088usize, 4089, 4090] {
+            let mut b = b"\x1b]52;c;".to_vec();
+            b.extend((0..l).map(|i| b'A' + (i % 26) as u8));
+            b.extend_from_slice(b"\x07shown after\n");
+            v.push(b);
+        }
+    }
     v
 }
 
